@@ -573,6 +573,7 @@ func vpGenCase(rng *vrand, id int, mode string) *vpCase {
 		}
 		p.feat["pre-held"] = true
 	}
+	bigCase := rng.chance(8) // sizes around the 4096-byte minimum of the heap fallback
 	relSize := func() int {
 		cc := rng.pick(caps)
 		switch rng.intn(12) {
@@ -595,7 +596,7 @@ func vpGenCase(rng *vrand, id int, mode string) *vpCase {
 		case 8:
 			return 2*cc + 1
 		case 9:
-			if rng.chance(12) {
+			if bigCase {
 				return int(defaultSingleBufferSize) + rng.intn(3) - 1
 			}
 			return cc + 2
@@ -654,8 +655,8 @@ func vpGenCase(rng *vrand, id int, mode string) *vpCase {
 				// relative to what the front slice still holds
 				fs := p.frontSize()
 				n = fs + rng.intn(3) - 1
-				if n < 0 {
-					n = 0
+				if n <= 0 {
+					n = 1 + rng.intn(3)
 				}
 			}
 			if n > availAll && !rng.chance(6) {
